@@ -9,7 +9,9 @@ EXPLANATION = ("Static rules over quinn-proto MIR: (a) Datagrams::send admission
                "that does not fit goes back to the front; (d) black-hole and unblock events; (e) datagrams enter packets only whole through DatagramState::write under "
                "its size guard, are never recorded for retransmission, and received frames are pushed whole; (f) byte accounting of recv_buffered / outgoing_total at "
                "every queue mutation; (g) async layer: Event::DatagramsUnblocked (one per blocked -> unblocked transition) releases every parked send_datagram_wait "
-               "future (notify_waiters on datagrams_unblocked on every path of its arm); send_datagram_wait sends with drop = false, send_datagram with drop = true. "
+               "future (notify_waiters on datagrams_unblocked on every path of its arm); send_datagram_wait sends with drop = false, send_datagram with drop = true; "
+               "(h) every reduction of the MTU under the queue (black-hole fallback, PathData::reset in path_changed, replacement of the live path in migrate) is followed on "
+               "every path by a purge whose limit is the Datagrams::max_size() computed afterwards, and the purge keeps exactly len <= limit. "
                "Byte identity end-to-end is NOT decided.")
 RULE = "rule instances = (rule, site) pairs over MIR branches / stores / call sites; non-trivial = bound to a real site"
 DS = 'datagrams::DatagramState'
@@ -73,21 +75,32 @@ def _is_flag(t, name):
     return t[0] == 'field' and t[2] == name
 
 
-def _flag_guards(F, b, name, site_bb):
-    """branches on the bool field `name` (alone, negated, or as a conjunct of a non-short-circuit `&`) that dominate
-    site_bb and from whose `flag == false` edge the site is unreachable: list of (Branch, target_when_flag_false)"""
+def _conjuncts(desc):
+    """(conjuncts of the negation-peeled bool descriptor over non-short-circuit `&`, negated?)"""
+    inner, neg = peel_not(desc)
+    conj = [inner]
+    while any(x[0] == 'bin' and x[1] == 'BitAnd' for x in conj):
+        conj = [y for x in conj for y in ((x[2], x[3]) if x[0] == 'bin' and x[1] == 'BitAnd' else (x,))]
+    return conj, neg
+
+
+def _conj_guards(F, b, pred, site_bb):
+    """branches on a bool satisfying `pred` (alone, negated, or as a conjunct of a non-short-circuit `&`) that dominate
+    site_bb and from whose `bool == false` edge the site is unreachable: list of (Branch, target_when_false)"""
     out = []
     for br in branches(F, b):
-        inner, neg = peel_not(br.desc)
-        conj = [inner]
-        while any(x[0] == 'bin' and x[1] == 'BitAnd' for x in conj):
-            conj = [y for x in conj for y in ((x[2], x[3]) if x[0] == 'bin' and x[1] == 'BitAnd' else (x,))]
-        if not any(_is_flag(x, name) for x in conj):
+        conj, neg = _conjuncts(br.desc)
+        if not any(pred(x) for x in conj):
             continue
-        t_false = br.target(1 if neg else 0)     # the edge on which the flag is not known to be set
+        t_false = br.target(1 if neg else 0)     # the edge on which the bool is not known to be set
         if b.dominates(br.bb, site_bb) and site_bb not in b.reachable_from(t_false, avoid=[br.bb]):
             out.append((br, t_false))
     return out
+
+
+def _flag_guards(F, b, name, site_bb):
+    """_conj_guards for the bool field `name`"""
+    return _conj_guards(F, b, lambda x: _is_flag(x, name), site_bb)
 
 
 def rule_a(ctx):
@@ -189,12 +202,25 @@ def rule_c(ctx):
 
 def rule_d(ctx):
     F = ctx.facts
-    dl = ctx.pfn('Connection::detect_lost_packets')
+    pp = ctx.pfn('Connection::populate_packet')
     ev = [c for c in constructions(F, 'connection::Event', 'DatagramsUnblocked', crate='quinn_proto')]
     roots_ = sorted({F.root_of(c.body).short for c in ev})
-    ctx.check(roots_ == ['Connection::detect_lost_packets', 'Connection::populate_packet'], 'd', 'unblocked_event_sites', 'Event::DatagramsUnblocked', '', str(roots_), 'DatagramsUnblocked sites changed: %s' % roots_)
+    # room in the send buffer appears in two ways only: a datagram was transmitted (populate_packet) or queued datagrams were
+    # purged (every function calling DatagramState::drop_oversized: the black-hole fallback and, since the MTU-reset repair,
+    # the purge after path_changed / migrate).  The event sites are exactly those functions: each of them reports, nobody else does.
+    purges = [c for c in F.callers_of('DatagramState::drop_oversized', crate='quinn_proto') if not is_noise(c)]
+    want = sorted({pp.short} | {F.root_of(c.body).short for c in purges})
+    ctx.floor('d', 'purge_sites_reporting_unblock', len(purges), 1)
+    ctx.check(roots_ == want, 'd', 'unblocked_event_sites', 'Event::DatagramsUnblocked', '', str(roots_),
+              'DatagramsUnblocked sites changed: %s (expected: the transmit path and every function that purges the queue: %s)' % (roots_, want))
     for c in ev:
         b = F.root_of(c.body)
+        if b.id != pp.id:
+            # outside the transmit path the event needs a purge that actually released space: reachable only over the
+            # `true` edge of a dominating branch on the result of DatagramState::drop_oversized
+            g = _conj_guards(F, b, lambda x: _is_call(x, 'DatagramState::drop_oversized'), c.bb) if c.body.id == b.id else []
+            ctx.check(bool(g), 'd', 'unblocked_after_purge_only_if_dropped', b, c.where(), 'event only reachable over the drop_oversized(..) == true edge of a dominating branch',
+                      'DatagramsUnblocked emitted outside the transmit path without a purge that dropped something (no dominating branch on the result of drop_oversized whose false edge excludes the event)')
         # the branch must be ON send_blocked and the event reachable only over its `send_blocked == true` edge
         guards = _flag_guards(F, b, 'send_blocked', c.bb) if c.body.id == b.id else []
         ctx.check(bool(guards), 'd', 'unblocked_only_when_blocked', b, c.where(), 'event only reachable over the send_blocked == true edge of a dominating branch',
@@ -210,6 +236,18 @@ def rule_d(ctx):
         ctx.check((before or after) and only_false, 'd', 'unblocked_clears_flag', b, c.where(), 'send_blocked = false on the event path',
                   'send_blocked is not cleared (stored false) on the path that emits DatagramsUnblocked; stores in %s: %s' % (b.short, [(w.where(), D.render(v)[:40]) for w, v in sv]))
 
+    # conversely every purge reports: from the purge call, over the `dropped` and `send_blocked` edges, every path to a return emits the event
+    for p in purges:
+        b = F.root_of(p.body)
+        E = {c.bb for c in ev if c.body.id == b.id} if p.body.id == b.id else set()
+        cut = set()
+        for br in branches(F, b):
+            conj, neg = _conjuncts(br.desc)
+            if any(is_site(x, p) or _is_flag(x, 'send_blocked') for x in conj):
+                cut.add((br.bb, br.target(1 if neg else 0)))
+        silent = sorted(b.reachable_from(p.bb, avoid=E, avoid_edges=cut) & set(b.return_blocks())) if E else ['no event site']
+        ctx.check(not silent, 'd', 'purge_that_unblocks_reports_it', b, p.where(), 'drop_oversized(..) && send_blocked -> DatagramsUnblocked on every path to a return',
+                  'a purge that dropped datagrams while a sender was blocked can return without DatagramsUnblocked (%s): the blocked sender is never woken' % silent)
 
 def _mutated_locals(b, ty):
     """source lines where a local of type `ty` (or a part of it) is mutably borrowed, raw-mut addressed, or partially written"""
@@ -403,6 +441,239 @@ def rule_g(ctx):
                                                                                    'waiting senders evict queued datagrams instead of blocking on the send-buffer bound' if not drop else 'the non-waiting send can be refused as Blocked'))
 
 
+
+# --------------------------------------------------------------------------
+# h: whatever lowers the MTU under the queue purges the datagrams that no longer fit
+# --------------------------------------------------------------------------
+
+MTU = 'mtud::MtuDiscovery'
+# writers of MtuDiscovery.current_mtu that are NOT treated as reductions (everything else, including any future writer, is)
+_MTU_WRITERS_NOT_CLAIMED = {
+    'MtuDiscovery::on_acked': 'an acknowledged probe only raises the MTU',
+    'MtuDiscovery::on_peer_max_udp_payload_size_received': "clamp to the peer's transport parameter when it arrives (Connection::set_peer_params); not among the repaired sites, recorded and not claimed",
+}
+
+
+def _is_conn_method(F, b):
+    r = F.root_of(b)
+    return r.crate == 'quinn_proto' and len(r.locals) > 1 and r.argc >= 1 and r.locals[1][0].replace('&mut ', '').replace('&', '').strip().endswith('connection::Connection')
+
+
+def _live_path_place(d):
+    """0 when the descriptor IS `self.path` of a Connection method, n > 0 when it is a place n fields below it, else None"""
+    n = 0
+    while d[0] == 'field':
+        if d[2] == 'path' and d[1][0] == 'param' and d[1][1] == 1:
+            return n
+        d = d[1]
+        n += 1
+    return None
+
+
+def _purge_attempts(F, b):
+    """blocks of `b` that start a purge with the maximum valid at that moment: a call of Datagrams::max_size whose `Some`
+    payload - and nothing else - is the limit handed to DatagramState::drop_oversized on every path from the Some edge
+    to a return (None: the peer accepts no datagrams, nothing can be queued).  Returns (blocks, [(call, reason)] rejected)"""
+    out, rej = set(), []
+    rets = b.return_blocks()
+    for c in b.calls_to('DatagramState::drop_oversized'):
+        a = arg_desc(F, c, 1)
+        m = a[1][1] if a[0] == 'field' and a[2] == '0' and a[1][0] == 'variant' and a[1][2] == 'Some' else None
+        if m is None or not _is_call(m, 'Datagrams::max_size'):
+            rej.append((c, 'the limit is %s, not the payload of Datagrams::max_size()' % D.render(a)[:80]))
+            continue
+        brs = [br for br in branches(F, b) if br.desc == ('discr', m) and b.dominates(br.bb, c.bb)]
+        if not any(path_avoiding(b, [br.target(1)], rets, [c.bb]) is None for br in brs):
+            rej.append((c, 'a path over the Some(max) edge returns without the purge'))
+            continue
+        out.add(m[4])
+    return out, rej
+
+
+def _purge_blocks(F, b, depth=2):
+    """purge attempts of `b` plus calls of crate-local functions every entry -> return path of which passes one"""
+    out = set(_purge_attempts(F, b)[0])
+    if depth > 0:
+        live = b.live_blocks()
+        for c in b.calls():
+            if c.bb in live and c.k == 'item' and c.f in F.bodies and F.bodies[c.f].kind == 'fn' and F.bodies[c.f].crate == 'quinn_proto' and c.f != b.id:
+                cb = F.bodies[c.f]
+                if may_reach(F, cb, ['DatagramState::drop_oversized'], depth) and \
+                        path_avoiding(cb, [0], cb.return_blocks(), _purge_blocks(F, cb, depth - 1)) is None:
+                    out.add(c.bb)
+    return out
+
+
+def _false_means_untouched(F, cb, stores):
+    """the bool function `cb` cannot return `false` after one of the `stores` (blocks): every value it returns is the
+    constant `true`, a constant `false` assigned where no store can have happened, or an expression the stores are guarded by
+    (they are reachable only over the edge of a dominating branch on which that same expression is true)"""
+    d = describer(F, cb)
+    defs = cb.defs_of(0)
+    for df in defs:
+        if df[0] == 'stmt':
+            v = d.rvalue(df[3], df[1], df[2], 0)
+        elif df[0] == 'call':
+            v = d.call_desc(df[2], 0)
+        else:
+            return False
+        for x in flat(v):
+            if _is_bool(x, True):
+                continue
+            if _is_bool(x, False):
+                if any(df[1] in cb.reachable_from(s) for s in stores):
+                    return False
+                continue
+            inner, neg = peel_not(x)
+            for s in stores:
+                guarded = False
+                for br in branches(F, cb):
+                    bi, bn = peel_not(br.desc)
+                    if bi != inner:
+                        continue
+                    t_false = br.target((1 if neg else 0) ^ (1 if bn else 0))       # edge on which the returned expression is false
+                    if cb.dominates(br.bb, s) and s not in cb.reachable_from(t_false, avoid=[br.bb]):
+                        guarded = True
+                if not guarded:
+                    return False
+    return bool(defs)
+
+
+def _reports_reduction(F, c, lowering):
+    """the callee of site `c` returns bool and cannot return `false` after storing the MTU: the reduction happened iff the
+    result is true, so the obligation starts on the `true` edge of the branch on the result.  Returns (start blocks, on_true)"""
+    b = c.body
+    cb = F.bodies.get(c.f)
+    if cb is not None and cb.locals[0][0] == 'bool':
+        stores = [w.bb for w in lowering if w.body.id == cb.id]
+        if stores and _false_means_untouched(F, cb, stores):
+            brs = [br for br in branches(F, b) if is_site(peel_not(br.desc)[0], c)]
+            if brs and all(b.dominates(c.bb, br.bb) for br in brs):
+                return [br.target(0 if peel_not(br.desc)[1] else 1) for br in brs], True
+    return list(b.succ[c.bb]), False
+
+
+def rule_h(ctx):
+    """Datagrams::send admits a datagram against the maximum of the moment (rule b: current MTU).  When the MTU under the
+    queue drops, a datagram admitted earlier no longer fits any packet: DatagramState::write puts it back at the head of the
+    queue forever (rule c) and nothing behind it is ever sent.  Hence every reduction is followed by a purge with the NEW
+    maximum, and the purge keeps exactly the datagrams send() would still accept (len <= max)."""
+    F = ctx.facts
+    writes = [w for w in field_writes(F, MTU, 'current_mtu', crate='quinn_proto') if w.kind in ('assign', 'callresult', 'mutborrow')]
+    lowering = [w for w in writes if F.root_of(w.body).short not in _MTU_WRITERS_NOT_CLAIMED]
+    lower_fns = sorted({F.root_of(w.body).short for w in lowering})
+    ctx.floor('h', 'mtu_reducing_writers', len(lower_fns), 2)        # MtuDiscovery::reset, MtuDiscovery::black_hole_detected
+    for n, why in sorted(_MTU_WRITERS_NOT_CLAIMED.items()):
+        ctx.info('h', 'writer of MtuDiscovery.current_mtu not treated as a reduction: %s (%s)' % (n, why))
+    # sites: (body, block, where, start blocks, what)
+    sites = []
+    for b in F.code_bodies('quinn_proto'):
+        if not _is_conn_method(F, b):
+            continue
+        live = b.live_blocks()
+        for c in b.calls():
+            if c.bb not in live or not c.args or is_noise(c):
+                continue
+            depth = _live_path_place(arg_desc(F, c, 0))
+            if depth is None:
+                continue
+            if c.is_('mem::replace', 'mem::swap', 'mem::take') and depth <= 1:
+                # the live path (or its MTU state) replaced as a whole
+                v = arg_desc(F, c, 1) if len(c.args) > 1 else ('const', 'other', '<default>', '')
+                sites.append((b, c.bb, c.where(), list(b.succ[c.bb]), 'the live path is replaced by %s' % D.render(v)[:60], v))
+            elif site_may_reach(F, c, lower_fns, 3):
+                starts, on_true = _reports_reduction(F, c, lowering)
+                sites.append((b, c.bb, c.where(), starts, '%s(self.path..) may reduce the MTU%s' % (short(c.f), ' (when it returns true)' if on_true else ''), None))
+    for adt, fld in (('connection::Connection', 'path'), ('paths::PathData', 'mtud'), (MTU, 'current_mtu')):
+        for w, v in store_values(ctx, adt, fld):
+            if w.kind == 'callresult' or not _is_conn_method(F, w.body):
+                continue
+            d = describer(F, w.body).place(w.place, w.bb, w.idx) if w.kind == 'assign' else None
+            tail = [e for e in w.place[1] if isinstance(e, list) and e[0] == 'f']
+            if w.kind != 'assign' or not tail or tail[-1][1] != fld or w.place[1][-1] != tail[-1]:
+                continue        # a store below the field (self.path.challenge = ..) is not a replacement
+            if fld != 'path' and not any(e[1] == 'path' and e[2].endswith('connection::Connection') for e in tail):
+                continue
+            sites.append((w.body, w.bb, w.where(), [w.bb], 'the live %s is assigned %s' % (fld, D.render(v)[:60]), v if fld == 'path' else None))
+    n = 0
+    for b, bb, where, starts, what, val in sites:
+        r = F.root_of(b)
+        if val is not None:
+            vs = flat(val)
+            if all(D.has_field(x, 'prev_path') and not D.has_call(x, 'PathData::new', 'PathData::from_previous') for x in vs):
+                ctx.info('h', '%s at %s: return to the previous path after a failed validation; not among the repaired sites, recorded and not claimed' % (what, where))
+                continue
+            if not all(_is_call(x, 'PathData::new') or _is_call(x, 'PathData::from_previous') for x in vs):
+                ctx.bad('h', 'mtu_reduction_purges_queue/unclassified_path_replacement', r, where, '%s: neither a freshly built path nor the stored previous path' % what)
+                continue
+        n += 1
+        if b.id != r.id:
+            ctx.bad('h', 'mtu_reduction_purges_queue', r, where, '%s inside a closure: the purge cannot be tied to it' % what)
+            continue
+        pur = _purge_blocks(F, b)
+        starts = [x for x in starts if x is not None]
+        path = path_avoiding(b, starts, b.return_blocks(), pur) if starts else [bb]      # (a store's own block may end in the purge call)
+        rej = '; '.join('%s: %s' % (c.where(), t) for c, t in _purge_attempts(F, b)[1])
+        ctx.check(path is None, 'h', 'mtu_reduction_purges_queue', r, where, '%s: every path to a return then purges the queue with the new Datagrams::max_size()' % what,
+                  '%s, but a path to a return never drops the queued datagrams that no longer fit (with the maximum computed afterwards): %s%s. They stay at the head of the queue and block every later datagram'
+                  % (what, fmt_path(b, path or []), ('; rejected purge: ' + rej) if rej else ''))
+    ctx.floor('h', 'mtu_reduction_sites', n, 3)       # black-hole fallback, path_changed, migrate
+    # every purge anywhere uses the current maximum as its limit
+    for c in F.callers_of('DatagramState::drop_oversized', crate='quinn_proto'):
+        if is_noise(c):
+            continue
+        rej = [t for x, t in _purge_attempts(F, c.body)[1] if x.bb == c.bb and t.startswith('the limit is')]
+        ctx.check(not rej, 'h', 'purge_limit_is_current_maximum', F.root_of(c.body), c.where(), 'drop_oversized(Some-payload of Datagrams::max_size())', 'purge with another limit than what send() admits: %s' % rej)
+    # the purge keeps what still fits: keep <=> len <= max_payload
+    do = ctx.pfn('DatagramState::drop_oversized')
+    ret = [c for c in do.calls_to('VecDeque::retain', 'VecDeque::retain_mut')]
+    cls = [cb for c in ret for cb in closure_args(F, c)]
+    lim = do.locals[2][1] if do.argc >= 2 else None
+    ok = len(cls) == 1 and lim is not None
+    why = 'cannot locate the retain closure / the limit parameter of drop_oversized'
+    if ok:
+        cb = cls[0]
+        d = describer(F, cb)
+
+        def too_big(o, a, b_):
+            # violating relation: limit < len(element.data)
+            return o == 'Lt' and a == ('upvar', lim) and _is_call(b_, 'Bytes::len') and len(b_[3]) == 1 and b_[3][0][0] == 'field' and b_[3][0][2] == 'data' \
+                and b_[3][0][1][0] == 'param' and 2 <= b_[3][0][1][1] <= cb.argc
+        edges = guard_edges(ctx, cb, too_big)
+        bad = []
+        for df in cb.defs_of(0):
+            if df[0] != 'stmt':
+                bad.append('the kept/dropped decision is a call result')
+                continue
+            v = d.rvalue(df[3], df[1], df[2], 0)
+            for x in flat(v):
+                rel = relation_on(x, False)
+                if rel is not None and too_big(*rel) and not (D.const_offsets(rel[1]) | D.const_offsets(rel[2])):
+                    continue                 # returns the comparison itself: keep = len <= limit
+                if _is_bool(x, True) or _is_bool(x, False):
+                    # constant decision: `false` only over the too-big edge, `true` never over it
+                    keep = _is_bool(x, True)
+                    cov = [1 for br, truth, tgt in edges if cb.dominates(br.bb, df[1])
+                           and (df[1] not in cb.reachable_from(tgt, avoid=[br.bb])) == keep
+                           and (df[1] not in cb.reachable_from(br.target(0 if truth else 1), avoid=[br.bb])) == (not keep)]
+                    if cov:
+                        continue
+                bad.append('returns %s' % D.render(x)[:80])
+        ok = not bad and (bool(edges) or bool(cb.defs_of(0)))
+        why = 'the retain predicate of drop_oversized is not `len <= max_payload`: %s' % (bad or 'no decision found')
+        # the bytes are released for the dropped elements only
+        rel_blocks = set()
+        for i, j, pl, rv, line in cb.assigns():
+            if i in cb.live_blocks() and pl[1] and pl[1][-1] == '*':
+                tgt = d.place([pl[0], pl[1][:-1]], i, j)
+                if tgt[0] == 'upvar' and _upvar_is(tgt, 'outgoing_total'):
+                    rel_blocks.add(i)
+        if ok and rel_blocks:
+            unprot = [x for x in rel_blocks if not any(cb.dominates(br.bb, x) and x not in cb.reachable_from(br.target(0 if truth else 1), avoid=[br.bb]) for br, truth, tgt in edges)]
+            ok = not unprot
+            why = 'outgoing_total is released for datagrams that are kept (release not confined to the len > max_payload edge)'
+    ctx.check(ok, 'h', 'purge_keeps_datagrams_that_fit', do, do.where(), 'retain(|d| d.data.len() <= max_payload): a datagram of exactly the maximum size stays queued', why)
+
 def run(ctx):
     rule_a(ctx)
     rule_b(ctx)
@@ -411,3 +682,4 @@ def run(ctx):
     rule_e(ctx)
     rule_f(ctx)
     rule_g(ctx)
+    rule_h(ctx)
